@@ -53,7 +53,7 @@ impl Distribution for Uniform {
 
 impl Distribution1D for Uniform {
     fn update(&mut self, params: &[f64]) {
-        self.set_lower(params[0]).set_upper(params[1]);
+        *self = Self::new(params[0], params[1]);
     }
 }
 
